@@ -27,7 +27,7 @@ ASSUMPTIONS = [
     'the leak clause recognises owner-bound watchers structurally (functools.partial with a function= keyword bound to the '
     'owner); unrecognisable callbacks are counted, not judged',
 ]
-REQUIRED = {'ops_judged': 3000, 'replacements': 1000, 'leaf_sets': 1000, 'detached_leaf_sets': 200, 'leak_checks': 2000, 'slot_sets': 300}
+REQUIRED = {'ops_judged': 3000, 'replacements': 1000, 'leaf_sets': 1000, 'detached_leaf_sets': 200, 'leak_checks': 2000, 'slot_sets': 300, 'falsy_object_cases': 100}
 
 _st = {}
 _n = [0]
@@ -46,8 +46,19 @@ def setup(P):
         x = param.Number(default=0.0, bounds=(-1e9, 1e9))
         y = param.Number(default=0.0, bounds=(-1e9, 1e9))
 
+    class EmptyNode(Node):
+        """A container-like sub-object that is currently empty: evaluates to False."""
+        def __len__(self):
+            return 0
+
+    class FalseLeaf(Leaf):
+        def __bool__(self):
+            return False
+
     _st['Node'] = Node
     _st['Leaf'] = Leaf
+    _st['EmptyNode'] = EmptyNode
+    _st['FalseLeaf'] = FalseLeaf
 
 
 def val():
@@ -61,6 +72,11 @@ PATHS = ['a.x', 'a.y', 'a.b.x', 'a.b.y', 'a.b.b.x', 'c.x', 'c.y', 'c.param', 'a.
 def run_case(idx, rng, P, rep):
     param = _st['param']
     Node, Leaf = _st['Node'], _st['Leaf']
+    falsy = rng.random() < 0.3
+    if falsy:
+        # objects that evaluate to False are still objects: every sub-object (and the owner) is falsy in these cases
+        Node, Leaf = _st['EmptyNode'], _st['FalseLeaf']
+        rep.count('falsy_object_cases')
     nmeth = rng.randint(1, 2)
     mspecs = []
     for mi in range(nmeth):
@@ -78,6 +94,8 @@ def run_case(idx, rng, P, rep):
         return param.depends(*deps, watch=True)(body)
     for mi, deps in enumerate(mspecs):
         ns[f'm{mi}'] = make(f'm{mi}', deps)
+    if falsy and rng.random() < 0.5:
+        ns['__bool__'] = lambda self: False
     Top = type(f'Top{idx}', (param.Parameterized,), ns)
 
     def new_node(depth, like=None, differ=None):
